@@ -42,6 +42,9 @@ class IsDictInsertionOrdered(OmegaMixin, Contract):
 
     def apply(self, eng, st, this, args, n):
         owner = eng.cur_contract
+        hook = getattr(owner, 'on_mode_query', None)
+        if hook:
+            hook(eng, st, args, n)
         if not hasattr(owner, 'omega'):
             # a caller whose contract does not talk about the mode set: the answer is some function of the (unknown) set
             mode_of = z3.Function('namespace_is_insertion_ordered_at', Str, z3.IntSort(), z3.BoolSort())
